@@ -1,5 +1,149 @@
-import OntVerif.Model.NeoInt
+import OntVerif.Proofs.NeoInt
+/-!
+# C21 — Numeric encodings round-trip exactly
+
+Model: `Model/NeoInt.lean` (first half), tied to `common/bigint.go`, `common/int128.go`,
+`smartcontract/service/native/utils/serialization.go`, `core/states/native_token_balance.go` by `harness/cmd/c21`.
+"Each value has exactly one encoding" is read as: the encoder is injective and produces the unique shortest
+byte string the decoder maps to the value (decoders do accept sign-extended, non-minimal NeoBytes; see props/C21.json).
+-/
 namespace OntVerif.Props.C21
-open OntVerif.Model.NeoInt
-theorem C21_placeholder : toNeo 0 = [] := by decide
+open OntVerif.Util OntVerif.Model.Codec OntVerif.Model.NeoInt OntVerif.Proofs.NeoInt OntVerif.Proofs.Codec
+
+/-! ## NeoBytes ⇄ big integer -/
+
+/-- lossless, for every integer (no bound) -/
+theorem C21_neo_rt (z : Int) : fromNeo (toNeo z) = z := neo_rt z
+
+theorem C21_neo_injective (a b : Int) (h : toNeo a = toNeo b) : a = b := by
+  have := congrArg fromNeo h
+  rwa [neo_rt, neo_rt] at this
+
+/-- what the decoder computes: the two's complement value of the little-endian string — congruent to the unsigned
+value modulo `256^len` and inside the signed range of `len` bytes -/
+theorem C21_neo_decode_twos_complement (bs : Bytes) :
+    (fromNeo bs - (fromLE bs : Int)) % ((256 ^ bs.length : Nat) : Int) = 0 ∧
+    -((256 ^ bs.length : Nat) : Int) ≤ 2 * fromNeo bs ∧ 2 * fromNeo bs < ((256 ^ bs.length : Nat) : Int) := by
+  rw [fromNeo_eq_tc]
+  refine ⟨?_, (tc_fits bs).1, (tc_fits bs).2⟩
+  unfold tc
+  split
+  · simp
+  · have : (fromLE bs : Int) - ((256 ^ bs.length : Nat) : Int) - (fromLE bs : Int) = -((256 ^ bs.length : Nat) : Int) := by omega
+    rw [this]; simp
+
+/-- minimal: no byte string that decodes to `z` is shorter than the encoder's output -/
+theorem C21_neo_minimal (z : Int) (bs : Bytes) (h : fromNeo bs = z) : (toNeo z).length ≤ bs.length :=
+  neo_minimal z bs h
+
+/-- unique: the encoder's output is the only string of minimal length decoding to `z` -/
+theorem C21_neo_unique_shortest (z : Int) (bs : Bytes) (h : fromNeo bs = z) (hl : bs.length = (toNeo z).length) :
+    bs = toNeo z := neo_unique z bs h hl
+
+/-! ## 128-bit integers -/
+
+/-- round trip on the whole range `[-2^127, 2^127)`; the encoding is 16 bytes -/
+theorem C21_i128_rt (z : Int) (h1 : minI128 ≤ z) (h2 : z ≤ maxI128) :
+    ∃ b, i128FromBigInt z = some b ∧ b.length = 16 ∧ i128ToBigInt b = z := i128_rt z h1 h2
+
+/-- everything outside the range is rejected -/
+theorem C21_i128_reject (z : Int) (h : z < minI128 ∨ maxI128 < z) : i128FromBigInt z = none := i128_reject z h
+
+/-- the other direction: every 16-byte string is the encoding of the integer it decodes to (bijection) -/
+theorem C21_i128_rt_bytes (b : Bytes) (hl : b.length = 16) :
+    i128FromBigInt (i128ToBigInt b) = some b ∧ minI128 ≤ i128ToBigInt b ∧ i128ToBigInt b ≤ maxI128 :=
+  ⟨i128_rt_bytes b hl, i128ToBigInt_range b hl⟩
+
+theorem C21_i128_injective (a b : Int) (bs : Bytes) (ha : i128FromBigInt a = some bs) (hb : i128FromBigInt b = some bs) :
+    a = b := by
+  have ra : minI128 ≤ a ∧ a ≤ maxI128 := by
+    apply Classical.byContradiction; intro hn
+    rw [i128_reject a (by omega)] at ha; cases ha
+  have rb : minI128 ≤ b ∧ b ≤ maxI128 := by
+    apply Classical.byContradiction; intro hn
+    rw [i128_reject b (by omega)] at hb; cases hb
+  obtain ⟨x, hx, _, hxa⟩ := i128_rt a ra.1 ra.2
+  obtain ⟨y, hy, _, hyb⟩ := i128_rt b rb.1 rb.2
+  rw [ha] at hx; rw [hb] at hy
+  injection hx with hx; injection hy with hy
+  rw [← hxa, ← hyb, ← hx, ← hy]
+
+/-- `I128FromInt64` sign-extends: it denotes the int64 it was built from -/
+theorem C21_i128_from_int64 (v : BitVec 64) : i128ToBigInt (i128FromInt64 v) = v.toInt := i128_int64 v
+
+/-! ## native-contract var-uint (`EncodeVarUint` / `DecodeVarUint`) -/
+
+/-- round trip at any cursor position of any buffer, for every uint64 -/
+theorem C21_varuint_native_rt (v : Nat) (hv : v < 18446744073709551616) (pre rest : Bytes)
+    (hlen : (pre ++ encodeVarUint v ++ rest).length < two64) :
+    decodeVarUint ⟨pre ++ encodeVarUint v ++ rest, pre.length⟩
+      = some (.ok v, ⟨pre ++ encodeVarUint v ++ rest,
+                pre.length + getVarUintSize (toNeo (Int.ofNat v)).length + (toNeo (Int.ofNat v)).length⟩) :=
+  decodeVarUint_rt v hv pre rest hlen
+
+theorem C21_varuint_native_injective (a b : Nat) (ha : a < 18446744073709551616) (hb : b < 18446744073709551616)
+    (h : encodeVarUint a = encodeVarUint b) : a = b := by
+  have la := encodeVarUint_length_lt a ha
+  have lb := encodeVarUint_length_lt b hb
+  have ra := decodeVarUint_rt a ha [] [] (by simpa using la)
+  have rb := decodeVarUint_rt b hb [] [] (by simpa using lb)
+  simp only [List.nil_append, List.append_nil, List.length_nil] at ra rb
+  rw [h, rb] at ra
+  injection ra with ra
+  injection ra with ra _
+  injection ra with ra
+  exact ra.symm
+
+/-! ## token balance storage item -/
+
+/-- every non-negative balance the encoder accepts decodes to itself (version 0: whole tokens with a uint64 quotient,
+version 1: everything else) -/
+theorem C21_balance_item_rt (z : Int) (hz : 0 ≤ z) (ver : UInt8) (val : Bytes) (h : balanceToItem z = some (ver, val)) :
+    balanceFromItem ver val = some (.ok z) := balance_rt z hz ver val h
+
+/-- the encoder is defined exactly outside "whole-token amount with a quotient outside uint64" (where the Go code panics) -/
+theorem C21_balance_encoder_defined (z : Int) :
+    balanceToItem z = none ↔ (z % scaleFactor = 0 ∧ (z < 0 ∨ 18446744073709551616 * scaleFactor ≤ z)) :=
+  balance_defined z
+
+/-- a negative balance never survives a round trip: either the encoder panics or the decoder rejects it -/
+theorem C21_balance_negative_rejected (z : Int) (hz : z < 0) :
+    balanceToItem z = none ∨
+    ∃ val, balanceToItem z = some (1, val) ∧ balanceFromItem 1 val = some (.error .negative) := balance_negative z hz
+
+/-- one storage item per balance (all integers, both versions) -/
+theorem C21_balance_item_injective (z1 z2 : Int) (i : UInt8 × Bytes)
+    (h1 : balanceToItem z1 = some i) (h2 : balanceToItem z2 = some i) : z1 = z2 := balance_inj z1 z2 i h1 h2
+
+/-- the serialized storage item (`MustToStorageItemBytes`) deserializes to the same (version, value) -/
+theorem C21_balance_bytes_rt (z : Int) (hz : 0 ≤ z) (raw : Bytes) (h : balanceToBytes z = some raw)
+    (hlen : raw.length + 10 < two64) : balanceFromBytes raw = some (.ok z) := by
+  unfold balanceToBytes at h
+  cases hi : balanceToItem z with
+  | none => rw [hi] at h; cases h
+  | some i =>
+    obtain ⟨ver, val⟩ := i
+    rw [hi] at h
+    simp only [Option.map_some, Option.some.injEq] at h
+    subst h
+    unfold balanceFromBytes
+    have hl : val.length + 10 < two64 := by
+      simp only [itemToBytes, List.length_cons, writeVarBytes, List.length_append] at hlen; omega
+    rw [item_bytes_rt ver val hl]
+    exact balance_rt z hz ver val hi
+
+/-! ### Non-vacuity / boundary witnesses -/
+example : toNeo 127 = [0x7f] ∧ toNeo 128 = [0x80, 0x00] ∧ toNeo (-128) = [0x80] ∧ toNeo (-129) = [0x7f, 0xff] := by decide
+example : toNeo (-1) = [0xff] ∧ toNeo (-256) = [0x00, 0xff] ∧ toNeo 0 = [] ∧ toNeo 256 = [0x00, 0x01] := by decide
+-- the decoder accepts sign-extended (non-minimal) strings: the observation recorded in props/C21.json
+example : fromNeo [0x05, 0x00] = 5 ∧ fromNeo [0xff, 0xff] = -1 ∧ fromNeo [0x00] = 0 := by decide
+example : minI128 ≤ (-5 : Int) ∧ (-5 : Int) ≤ maxI128 := by decide
+example : i128FromBigInt maxI128 = some [255,255,255,255,255,255,255,255,255,255,255,255,255,255,255,127] := by decide
+example : i128FromBigInt (maxI128 + 1) = none ∧ i128FromBigInt (minI128 - 1) = none := by decide
+example : balanceToItem 1500000000 = some (1, [0x00, 0x2f, 0x68, 0x59]) := by decide
+example : balanceToItem 2000000000 = some (0, [2, 0, 0, 0, 0, 0, 0, 0]) := by decide
+example : balanceToItem (18446744073709551616 * 1000000000) = none := by decide
+example : balanceToItem (-5) = some (1, [0xfb]) ∧ balanceFromItem 1 [0xfb] = some (.error .negative) := by decide
+example : decodeVarUint ⟨[0xaa] ++ encodeVarUint 128 ++ [0xbb], 1⟩ = some (.ok 128, ⟨[0xaa, 0x02, 0x80, 0x00, 0xbb], 4⟩) := by decide
+
 end OntVerif.Props.C21
